@@ -1055,3 +1055,45 @@ func rangeKeyOver(f *FuncInfo, v *types.Var) ast.Expr {
 	})
 	return out
 }
+
+// elseOrRest returns the statements executed when the condition of ifs is false: its else block, or — when there is no
+// else and the body always leaves the enclosing list (return, break, continue, goto, panic) — the statements that follow
+// ifs in its block. `if c {…; continue} else {B}` and `if c {…; continue}; B` are the same program.
+func elseOrRest(f *FuncInfo, ifs *ast.IfStmt) []ast.Stmt {
+	if eb, ok := ifs.Else.(*ast.BlockStmt); ok {
+		return eb.List
+	}
+	if ifs.Else != nil {
+		return []ast.Stmt{ifs.Else}
+	}
+	if len(ifs.Body.List) == 0 {
+		return nil
+	}
+	diverts := false
+	switch last := ifs.Body.List[len(ifs.Body.List)-1].(type) {
+	case *ast.ReturnStmt, *ast.BranchStmt:
+		diverts = true
+	case *ast.ExprStmt:
+		if call, ok := ast.Unparen(last.X).(*ast.CallExpr); ok && calleeID(f.Info(), call) == "builtin.panic" {
+			diverts = true
+		}
+	}
+	if !diverts {
+		return nil
+	}
+	var list []ast.Stmt
+	switch par := f.parentOf(ifs).(type) {
+	case *ast.BlockStmt:
+		list = par.List
+	case *ast.CaseClause:
+		list = par.Body
+	case *ast.CommClause:
+		list = par.Body
+	}
+	for i, st := range list {
+		if st == ast.Stmt(ifs) {
+			return list[i+1:]
+		}
+	}
+	return nil
+}
